@@ -9,7 +9,7 @@ from ..cfg import own_exprs
 from ..facts import Fact, atoms, enumerate_paths
 from ..report import Ctx
 from ..suspend import node_suspension
-from .common import always_before, need, node_of, protocol_schema, stmts_matching
+from .common import NotTabulable, OrderEval, always_before, need, node_of, protocol_schema, stmts_matching
 
 PB = "happysimulator/components/replication/primary_backup.py"
 CH = "happysimulator/components/replication/chain_replication.py"
@@ -76,19 +76,53 @@ def rule_primary_backup(ctx: Ctx) -> None:
             mode = "ASYNC" if is_async else "SEMI_SYNC" if is_semi else "SYNC" if (is_async is False and is_semi is False) else "?"
             if not any(n in local for n in p.nodes):
                 bad.append(f"[{p.describe()[:100]}] replies before the primary's own store write")
-            many = p.decided(lambda t: t == "len(ack_futures)>=2")
-            some = p.decided(lambda t: t == "ack_futures")
             waits_all = any(_yields_value(n, "all_of(*ack_futures)") for n in p.nodes)
             waits_any = any(_yields_value(n, "any_of(*ack_futures)") for n in p.nodes)
             waits_one = any(_yields_value(n, "ack_futures[0]") for n in p.nodes)
-            if mode == "SYNC":
-                okp = (many is True and waits_all) or (many is False and some is True and waits_one) or (many is False and some is False)
-                if waits_any:
-                    okp = False
-            elif mode == "SEMI_SYNC":
-                okp = (many is True and (waits_any or waits_all)) or (many is False and some is True and waits_one) or (many is False and some is False)
+            # which numbers of outstanding acks (0, 1, 2, 3 stand for none / one / several) are consistent with the branch decisions of this
+            # path?  The decisions are closed tests over `ack_futures` (`len(ack_futures) >= 2`, `len(ack_futures) == 1`, `ack_futures`, ...):
+            # they are tabulated over the four cases, so the rule does not depend on how the case split is spelled or ordered.
+            feasible = []
+            for k_ in (0, 1, 2, 3):
+                ok_k = True
+                for n_, l_ in zip(p.nodes, p.labels):
+                    if n_.kind != "test" or l_ is None:
+                        continue
+                    names = {x.id for x in ast.walk(n_.ast) if isinstance(x, ast.Name)}
+                    if "ack_futures" not in names:
+                        continue
+                    if not names <= {"ack_futures", "len"}:
+                        ok_k = None
+                        break
+                    try:
+                        ev_ = OrderEval({"ack_futures": (None,) * k_}, calls={"len": lambda e_, c_: len(e_.ev(c_.args[0]))})
+                        val = ev_.truth(ev_.ev(n_.ast))
+                    except NotTabulable:
+                        ok_k = None
+                        break
+                    if val != l_[1]:
+                        ok_k = False
+                        break
+                if ok_k is None:
+                    feasible = None
+                    break
+                if ok_k:
+                    feasible.append(k_)
+            if feasible is None:
+                okp = False
             elif mode == "ASYNC":
                 okp = True
+            elif mode in ("SYNC", "SEMI_SYNC"):
+                okp = True
+                for k_ in feasible:
+                    if k_ == 0:
+                        continue
+                    if k_ == 1:
+                        okp = okp and (waits_all or waits_any or waits_one)
+                    elif mode == "SYNC":
+                        okp = okp and waits_all
+                    else:
+                        okp = okp and (waits_all or waits_any or waits_one)
             else:
                 okp = False
             if not okp:
@@ -460,8 +494,16 @@ def rule_multi_leader(ctx: Ctx) -> None:
     rets = [s for s in walk_stmts(lw.node.body) if isinstance(s, ast.Return)]
     ok = len(rets) == 1 and unparse(rets[0].value).replace(" ", "") == "max(versions,key=self._sort_key)"
     sk = prog.func(CR, "LastWriterWins._sort_key")
-    krets = [unparse(s.value).replace(" ", "") for s in walk_stmts(sk.node.body) if isinstance(s, ast.Return)]
-    ok = ok and krets == ["(ts.physical_ns,ts.logical,ts.node_id)", "(ts,0,v.writer_id)"]
+    # per path: an HLC timestamp sorts by (physical, logical, node), anything else by (timestamp, 0, writer) — whichever branch is written first
+    skf = ctx.flow(sk)
+    n_k = 0
+    for p_ in enumerate_paths(skf, skf.cfg.entry):
+        last = [n_ for n_ in p_.nodes if n_.kind == "stmt" and isinstance(n_.ast, ast.Return)]
+        is_hlc = p_.decided(lambda t: t == "isinstance(ts,HLCTimestamp)")
+        got = unparse(last[-1].ast.value).replace(" ", "") if last else None
+        n_k += 1
+        ok = ok and is_hlc is not None and got == ("(ts.physical_ns,ts.logical,ts.node_id)" if is_hlc else "(ts,0,v.writer_id)")
+    ok = ok and n_k == 2 and len(stmts_matching(sk, "ts = v.timestamp")) == 1
     ctx.ob("C17-4", "G3", lw, rets[0] if rets else None, ok, "LastWriterWins picks the maximum of a total order (timestamp, then writer id): every replica picks the same winner for the same pair")
     vm = prog.func(CR, "VectorClockMerge._resolve_pair")
     vf = ctx.flow(vm)
